@@ -231,23 +231,11 @@ def parseSlices (s : String) : List (String × List (String × String)) :=
   if s = "" then [] else (s.splitOn ";").map fun e =>
     (String.ofList (e.toList.takeWhile (· ≠ '=')), parseListing (String.ofList ((e.toList.dropWhile (· ≠ '=')).drop 1)))
 
-def tokenOk (jwt : Option (String × String)) (auth : Option String) : Bool :=
-  match jwt with
-  | none => true
-  | some (a, b) => match auth with
-    | some t => t == a || (b != "" && t == b)
-    | none => false
-
 def fmtTrail (n : Nat) : String := ".".intercalate ((List.range n).map fun i => toString (i + 1))
 
-/-- the middlewares in front of a route handler: `Server.Use` ones (engine.bindRoute appends `ng.middlewares` in
-`Use` order), then the route's own `rest.WithMiddlewares` ones. -/
-def fmtTrailU (uses : List Nat) (n : Nat) : String :=
-  ".".intercalate (uses.map (fun u => "u" ++ toString u) ++ (List.range n).map fun i => toString (i + 1))
-
 /-- the settings of the bound route (method, cleaned pattern): the first group that contains it. -/
-def lookupRMeta (rmeta : List (String × List String × Option (String × String) × String)) (m : String) (pats : List String) :
-    Option (Option (String × String) × String) :=
+def lookupRMeta (rmeta : List (String × List String × Option (String × String) × List Layer)) (m : String) (pats : List String) :
+    Option (Option (String × String) × List Layer) :=
   (rmeta.find? fun x => x.1 == m && x.2.1 == pats).map (·.2.2)
 
 /-- split a trailing ` mw=<trail>` token off an outcome. -/
@@ -282,7 +270,8 @@ structure St where
   api : Api := {}                -- the aliasing model: caller slices + engine.routes
   names : List String := []      -- names of the caller slices (position = index in `api.heap`)
   written : List (List Reg) := []  -- the caller slices as written in the `slice` lines
-  rmeta : List (String × List String × Option (String × String) × String) := []  -- bound route ↦ (jwt, middleware trail)
+  rmeta : List (String × List String × Option (String × String) × List Layer) := []  -- bound route ↦ (jwt, chain of bindRoute)
+  chain : Option Nat := none     -- rest.WithChain
   uses : List Nat := []          -- Server.Use middlewares so far (ids, in Use order)
 
 def patKind (pats : List String) : String :=
@@ -328,14 +317,15 @@ def runReq (r : Report) (st : St) (sidx : Nat) (l : Line) (m p : String) (auth :
   let hyp := Spec.oneVarPerPosition st.tbl
   let toksO := if rooted p then some (cleanToks p) else none
   -- the settings (WithJwt secrets, middleware trail) of the routes a hit on handler `h` can belong to
-  let rmetaOf : H → List (Option (String × String) × String) := fun h =>
+  let rmetaOf : H → List (Option (String × String) × List Layer) := fun h =>
     (((Spec.admissible st.tbl m (toksO.getD [])).filter (·.h == h)).filterMap fun x =>
       lookupRMeta st.rmeta x.method x.pats).eraseDups
   -- engine.bindRoute: the Authorize handler of a WithJwt group sits in front of the route handler
   let dec : H → Params → String := fun h ps =>
     match rmetaOf h with
-    | [(jwt, tr)] =>
-      if !(tokenOk jwt auth) then "401" else if tr ≠ "" then fmtHitC ctx h ps ++ " mw=" ++ tr else fmtHitC ctx h ps
+    | [(_, layers)] =>
+      let (tr, reached) := runChain auth layers
+      (if reached then fmtHitC ctx h ps else "401") ++ (if tr.isEmpty then "" else " mw=" ++ ".".intercalate tr)
     | _ => fmtHitC ctx h ps
   let behPanics := beh.any fun k => ["perr", "pstr", "pabort", "goexit"].contains k
   let all := serveAllX st.pr m p dec behPanics
@@ -386,17 +376,19 @@ def runReq (r : Report) (st : St) (sidx : Nat) (l : Line) (m p : String) (auth :
   for oRaw in outsRaw do
     let (o, status, endK, esc) := splitExtras oRaw
     let panicked := endK.any fun k => ["perr", "pstr", "pabort", "goexit"].contains k
-    if o = "401" then
+    if (splitTrail o).1 = "401" then
+      let tr401 := (splitTrail o).2
       -- acceptable iff an admissible route was registered WithJwt and the token matches none of its secrets
       let adm := Spec.admissible st.tbl m (toksO.getD [])
       let ok := toksO.isSome && adm.any fun x =>
         match lookupRMeta st.rmeta x.method x.pats with
-        | some (jwt, _) => !(tokenOk jwt auth)
+        | some (jwt, layers) => !(tokenOk jwt auth) && ".".intercalate (runChain auth layers).1 == tr401
         | none => false
       r := r.addCover "req-401-unauthorized"
+      if tr401 ≠ "" then r := r.addCover "req-401-behind-WithChain-middlewares"
       if !ok then
         let why := if adm.isEmpty then "no route of the method matches"
-          else s!"the preferred match [{",".intercalate (adm.map (fmtRoute (toksO.getD [])))}] was not registered with a secret that rejects the token [{auth.getD "none"}]"
+          else s!"the preferred match [{",".intercalate (adm.map (fmtRoute (toksO.getD [])))}] was not registered with a secret that rejects the token [{auth.getD "none"}] behind the middlewares [{tr401}]"
         r := r.violation sidx l.idx s!"request {m} {p}: 401 Unauthorized but {why}"
       if endK.isSome then
         r := r.violation sidx l.idx s!"request {m} {p}: 401 Unauthorized but a user handler ran [{oRaw}]"
@@ -438,9 +430,10 @@ def runReq (r : Report) (st : St) (sidx : Nat) (l : Line) (m p : String) (auth :
         let ms := rmetaOf h
         if ms.any fun x => x.1.isSome then r := r.addCover "hit-jwt-route-token-accepted"
         if trail ≠ "" then r := r.addCover "hit-behind-route-middlewares"
-        if trail.startsWith "u" then r := r.addCover "hit-behind-Server.Use-middlewares"
-        if !ms.isEmpty ∧ !(ms.any fun x => tokenOk x.1 auth && x.2 == trail) then
-          let regd := ms.map fun x => s!"jwt={(x.1.map fun ab => ab.1 ++ "," ++ ab.2).getD "off"} middlewares={x.2}"
+        if (trail.splitOn ".").any (·.startsWith "u") then r := r.addCover "hit-behind-Server.Use-middlewares"
+        if (trail.splitOn ".").any (·.startsWith "c") then r := r.addCover "hit-behind-WithChain-middlewares"
+        if !ms.isEmpty ∧ !(ms.any fun x => runChain auth x.2 == ((trail.splitOn ".").filter (· ≠ ""), true)) then
+          let regd := ms.map fun x => s!"jwt={(x.1.map fun ab => ab.1 ++ "," ++ ab.2).getD "off"} middlewares={".".intercalate ((x.2.filter fun l => match l with | .auth _ _ => false | _ => true).map Layer.tag)}"
           r := r.violation sidx l.idx s!"request {m} {p}: handler h={h} ran [middlewares={trail} token={auth.getD "none"}] but its route was registered with [{" | ".intercalate regd}]"
         if ms.isEmpty ∧ trail ≠ "" then
           r := r.violation sidx l.idx s!"request {m} {p}: handler h={h} ran behind middlewares [{trail}] of another route"
@@ -525,17 +518,18 @@ def runSection (r : Report) (s : Section) : Report := Id.run do
         match (arg "nf=" [a]).bind parseItem, (arg "na=" [a]).bind parseItem with
         | some h, _ => some (.notFound h)
         | none, some h => some (.notAllowed h)
-        | none, none => if a = "router" then some .router else none
+        | none, none => if a = "router" then some .router else ((arg "chain=" [a]).bind String.toNat?).map .chain
       match o with
       | some o =>
         if st.built then
           if joinSp l.obs ≠ "late" then r := r.mismatch s.idx l.idx "late" (joinSp l.obs)
         else
-          st := { st with opts := st.opts ++ [o], pr := { (newServer (st.opts ++ [o])).router with core := st.pr.core } }
+          st := { st with opts := st.opts ++ [o], pr := { (newServer (st.opts ++ [o])).router with core := st.pr.core },
+                          chain := (newServer (st.opts ++ [o])).chain }
           r := r.addCover (match o with
             | .notFound none => "opt-notfound-nil" | .notFound _ => "opt-notfound-custom"
             | .notAllowed none => "opt-notallowed-nil" | .notAllowed _ => "opt-notallowed-custom"
-            | .router => "opt-WithRouter")
+            | .router => "opt-WithRouter" | .chain _ => "opt-WithChain")
           if joinSp l.obs ≠ "ok" then r := r.mismatch s.idx l.idx "ok" (joinSp l.obs)
       | none => r := r.mismatch s.idx l.idx "bad-op" (joinSp l.op)
     | "group" :: args =>
@@ -590,7 +584,7 @@ def runSection (r : Report) (s : Section) : Report := Id.run do
       let specRegs := st.groups.flatMap Group.regs
       let (tbl', sv) := Spec.bindTable st.tbl specRegs
       let rmetaNew := (st.groups.zip st.mws).flatMap fun (g, n) =>
-        g.regs.filterMap fun x => if rooted x.2.1 then some (x.1, cleanToks x.2.1, g.featured.set.jwt, fmtTrailU st.uses n) else none
+        g.regs.filterMap fun x => if rooted x.2.1 then some (x.1, cleanToks x.2.1, g.featured.set.jwt, bindChain st.chain g.featured.set.jwt st.uses n) else none
       -- a route keeps the chain it was bound with (a second bind registers nothing new)
       let rmeta := st.rmeta ++ rmetaNew.filter fun x => (lookupRMeta st.rmeta x.1 x.2.1).isNone
       st := { st with built := true, pr := { st.pr with core := res.1 }, tbl := tbl', rmeta := rmeta }
@@ -720,6 +714,13 @@ def runSection (r : Report) (s : Section) : Report := Id.run do
               | .pfx _ => "api-opt-WithPrefix" | .jwt _ => "api-opt-WithJwt" | .jwtTransition _ _ => "api-opt-WithJwtTransition"
               | .timeout _ => "api-opt-WithTimeout" | .maxBytes _ => "api-opt-WithMaxBytes"
               | .priority => "api-opt-WithPriority" | .sse => "api-opt-WithSSE")
+          for o in opts do
+            match o with
+            | .jwtTransition _ b =>
+              if b = "" then r := r.addCover "api-WithJwtTransition-empty-previous-secret"
+              if st.groups.any (fun g => g.featured.set.jwt.any fun ab => ab.1 == b) then
+                r := r.addCover "api-WithJwtTransition-previous-is-another-groups-current"
+            | _ => pure ()
           if nmw > 0 then r := r.addCover "api-WithMiddlewares"
           -- correspondence: the aliasing model
           let modelRoutes := st.api.regs
